@@ -56,6 +56,43 @@ func say(format string, a ...interface{}) {
 // only the keys written by the versioned Set (k..., n...) carry value = i, updatedBy = "i"
 func versioned(key string) bool { return len(key) > 0 && (key[0] == 'k' || key[0] == 'n') }
 
+// blob records: a fixed-size msgpack body {"n": i, "w": i, "p": <32 bytes, each byte(i)>} written
+// with one Set (a fresh slice per request, never touched again) together with UpdatedBy = "i".
+// A stored byte-array value is immutable, so whatever slice a reader is handed must keep showing
+// ONE version: n, w and every pad byte agree.
+func blobBody(i int64) []byte {
+	b := []byte{0xC7, 0x00, 0x83, 0xa1, 'n'}
+	b = append(b, mpInt64(i)...)
+	b = append(b, 0xa1, 'w')
+	b = append(b, mpInt64(i)...)
+	b = append(b, 0xa1, 'p', 0xc4, 32)
+	for k := 0; k < 32; k++ {
+		b = append(b, byte(i))
+	}
+	return b
+}
+
+// blobCheck reads the bytes without race instrumentation (the harness' own reads are not the
+// subject; the engine's are) and reports whether they show exactly one version.
+//
+//go:norace
+func blobCheck(b []byte) (n int64, ok bool) {
+	if len(b) != 61 || b[5] != 0xd3 || b[16] != 0xd3 {
+		return 0, false
+	}
+	n = int64(binary.BigEndian.Uint64(b[6:14]))
+	w := int64(binary.BigEndian.Uint64(b[17:25]))
+	if n != w {
+		return n, false
+	}
+	for k := 29; k < 61; k++ {
+		if b[k] != byte(n) {
+			return n, false
+		}
+	}
+	return n, true
+}
+
 func mpInt64(v int64) []byte {
 	b := make([]byte, 9)
 	b[0] = 0xd3
@@ -198,6 +235,72 @@ func main() {
 	for w := 0; w < 3; w++ {
 		spawn("hot", w, func(rng *common.Rng) { set(key(rng.Intn(2))); atomic.AddInt64(&writes, 1) })
 	}
+	// blob records (both phases): same-size bodies rewritten over and over, read in-process and
+	// over the wire (the answer is serialized after the handler has returned)
+	// they live in a swamp of their own: the Cap predicates and filters of the other flows decode
+	// every body they walk, and bytes that reach a decoder through the unsynchronised Content
+	// pointer (known setter/getter finding) would be paired with their initialisation here
+	const blobSwamp = "c10/r/blobs"
+	bkey := func(i int) string { return fmt.Sprintf("b%02d", i) }
+	blobSet := func(k string) {
+		i := atomic.AddInt64(&version, 1)
+		by := strconv.FormatInt(i, 10)
+		r, err := gw.Set(ctx, &hydrapb.SetRequest{Swamps: []*hydrapb.SwampRequest{{IslandID: 1, SwampName: blobSwamp,
+			CreateIfNotExist: true, Overwrite: true, KeyValues: []*hydrapb.KeyValuePair{{Key: k, BytesVal: blobBody(i), UpdatedBy: &by}}}}})
+		if err != nil {
+			say("ERR BlobSet %v", err)
+		} else if r == nil {
+			say("NILREPLY BlobSet")
+		}
+	}
+	for i := 0; i < 3; i++ {
+		blobSet(bkey(i))
+	}
+	for w := 0; w < 2; w++ {
+		spawn("blobset", w, func(rng *common.Rng) { blobSet(bkey(rng.Intn(3))); atomic.AddInt64(&writes, 1) })
+	}
+	var bsampled int64
+	for w := 0; w < 2; w++ {
+		w := w
+		spawn("blobget", w, func(rng *common.Rng) {
+			req := &hydrapb.GetRequest{Swamps: []*hydrapb.GetSwamp{{IslandID: 1, SwampName: blobSwamp, Keys: []string{bkey(rng.Intn(3))}}}}
+			var r *hydrapb.GetResponse
+			var err error
+			if w == 0 {
+				r, err = gw.Get(ctx, req)
+			} else {
+				r, err = sc.Get(ctx, req)
+			}
+			if err != nil {
+				say("ERR BlobGet %v", err)
+				return
+			}
+			if r == nil {
+				say("NILREPLY BlobGet")
+				return
+			}
+			for _, sw := range r.Swamps {
+				for _, t := range sw.Treasures {
+					if t == nil || !t.IsExist || t.BytesVal == nil {
+						continue
+					}
+					if w == 0 {
+						runtime.Gosched() // hold the slice for a moment, like an answer waiting to be serialized
+					}
+					n, ok := blobCheck(t.BytesVal)
+					atomic.AddInt64(&reads, 1)
+					if !ok {
+						say("BTORN key=%s n=%d len=%d", t.Key, n, len(t.BytesVal))
+					} else if atomic.AddInt64(&bsampled, 1) <= 100 {
+						say("BREAD key=%s n=%d len=%d", t.Key, n, len(t.BytesVal))
+					}
+				}
+			}
+		})
+	}
+	// (no body-filter stream here: the filter code decodes bytes that reach it through the
+	// unsynchronised Content pointer - known setter/getter finding - and the race detector then
+	// also pairs the decode with the initialisation of those bytes by whoever built them)
 	mkey := func(i int) string { return fmt.Sprintf("m%03d", i) }
 	strVal := func(v string) []byte { return append([]byte{byte(0xa0 + len(v))}, v...) }
 	capFilter := func(state string) *hydrapb.FilterGroup {
